@@ -17,8 +17,12 @@ using namespace c12;
 // predicate over (tree, configuration) plus the listed violation kinds - is reported exactly once, at the listed minimal
 // witness (kind "defect:<id>"), and merely counted ("known_defect:<id>") everywhere else, so that the remainder of the
 // space is still explored instead of drowning in repeats.  With --known 0 every occurrence is a violation.
-struct KnownDefect { const char* id; const char* kinds; const char* witnessTree; const char* witnessCfg; };
+struct KnownDefect { const char* id; const char* kinds; std::string witnessTree; const char* witnessCfg; };
+static const char* DTD_TOKEN2 = "<!DOCTYPE a [<!ELEMENT a ANY><!ENTITY e 'v'><!ENTITY f '&#60;&#38;'><!NOTATION n SYSTEM 'n'><!ENTITY u SYSTEM 'u' NDATA n><!-- c --><?p q?>]>";
 static const KnownDefect KNOWN_DEFECTS[] = {
+    {"redundant-empty-default-namespace-redeclared", "reparsed-tree-differs", "parsed(entities expanded): <a xmlns='ud'><b xmlns=''><c/></b></a>", "write/UTF-8/1.0/decl/split/discard/nobom"},
+    {"internal-subset-entity-value-not-escaped", "output-not-wellformed-expat output-not-wellformed-xerces", std::string("parsed(entities expanded): ") + DTD_TOKEN2 + "<a/>",
+     "write/UTF-8/1.0/decl/split/discard/nobom"},
     {"comment-double-hyphen-emitted", "illformed-content-emitted-silently", "<a> with Comment data=-- [data case 74]", "write/UTF-8/1.0/decl/split/discard/nobom"},
     {"pi-end-marker-emitted", "illformed-content-emitted-silently", "<a> with PI data=?> [data case 81]", "write/UTF-8/1.0/decl/split/discard/nobom"},
     {"cdata-illegal-char-emitted-when-splitting", "illformed-content-emitted-silently output-not-wellformed-expat output-not-wellformed-xerces", "<a> with CDATA data=\\u0001 [data case 109]",
@@ -165,6 +169,7 @@ struct NFOpts {
     bool dropNs = false;   // drop namespace-declaration attributes (trees that need fix-up get additional declarations)
     bool v11 = false, split = true; int enc = 0;
     bool exact = false;    // no merging/normalisation at all (used to decide whether isEqualNode must agree)
+    bool standalone = true;
 };
 static bool is_ws(char16_t c) { return c == 0x20 || c == 9 || c == 0xA || c == 0xD; }
 static U16 pi_norm(const U16& d, bool v11) {  // S between target and data is a separator: leading white space cannot be expressed
@@ -223,7 +228,7 @@ static void nf_node(DOMNode* n, const NFOpts& o, std::vector<NFItem>& out) {
     switch (n->getNodeType()) {
     case DOMNode::DOCUMENT_NODE: {
         DOMDocument* d = (DOMDocument*)n;
-        add(std::string("DOC|standalone=") + (d->getXmlStandalone() ? "yes" : "no"));
+        add(std::string("DOC|standalone=") + (o.standalone ? (d->getXmlStandalone() ? "yes" : "no") : "?"));   // travels in the XML declaration only
         nf_children(n, o, out);
         break;
     }
@@ -384,6 +389,17 @@ static void expect_walk(DOMNode* n, const Cfg& c, Expect& e) {
     case DOMNode::DOCUMENT_TYPE_NODE: {
         DOMDocumentType* dt = (DOMDocumentType*)n;
         expect_name(u16(dt->getName()), cc, e, "doctype-name");
+        {   // known defect: the internal subset string the parser hands to the DOM holds entity values with their character references expanded
+            U16 is = u16(dt->getInternalSubset());
+            size_t p = 0;
+            while ((p = is.find(u16("<!ENTITY "), p)) != U16::npos) {
+                size_t q = is.find(u'"', p), r = q == U16::npos ? q : is.find(u'"', q + 1);
+                if (r == U16::npos) break;
+                for (size_t i = q + 1; i < r; i++)
+                    if (is[i] == '%' || (is[i] == '&' && is.find(u';', i) > r)) e.kd.insert("internal-subset-entity-value-not-escaped");
+                p = r;
+            }
+        }
         bool pub = dt->getPublicId() && *dt->getPublicId(), sys = dt->getSystemId() && *dt->getSystemId();
         if (pub && !sys) e.fail("doctype-public-without-system");
         return;
@@ -391,6 +407,8 @@ static void expect_walk(DOMNode* n, const Cfg& c, Expect& e) {
     case DOMNode::ELEMENT_NODE: {
         expect_name(u16(n->getNodeName()), cc, e, "element-name");
         DOMNamedNodeMap* am = n->getAttributes();
+        if (DOMNode* xa = am->getNamedItem(XMLUni::fgXMLNSString))
+            if (!*xa->getNodeValue() && n->getFirstChild()) e.kd.insert("redundant-empty-default-namespace-redeclared");
         for (XMLSize_t i = 0; i < am->getLength(); i++) {
             DOMAttr* a = (DOMAttr*)am->item(i);
             if (c.discard && !a->getSpecified()) continue;
@@ -555,7 +573,7 @@ static void check_tree(DOMDocument* doc, const TreeOpts& to, Ctx& c) {
         if (!cfg.xmldecl && enc != 0) forced = ENC[enc].icu;   // no declaration: the encoding is external information ("UTF-16LE" for enc 1)
         if (cfg.target == 0 && !cfg.xmldecl) forced = "UTF-16LE";
         std::string key = std::string(forced ? forced : "-") + "|" + out.bytes;
-        NFOpts no; no.dropNs = to.dropNs; no.v11 = cfg.v11; no.split = cfg.split; no.enc = enc;
+        NFOpts no; no.dropNs = to.dropNs; no.v11 = cfg.v11; no.split = cfg.split; no.enc = enc; no.standalone = cfg.xmldecl;
         std::vector<NFItem> nfo;
         nf_node(doc, no, nfo);
         std::string err;
@@ -641,7 +659,7 @@ static void init_tokens() {
     T("<?xml version='1.0'?>"); T("<?xml version='1.1'?>"); T("<?xml version='1.0' encoding='ISO-8859-1' standalone='yes'?>");
     T("<!DOCTYPE a>"); T("<!DOCTYPE a SYSTEM 's.dtd'>"); T("<!DOCTYPE a PUBLIC 'pub' 's.dtd'>");
     T("<!DOCTYPE a [<!ENTITY e 'v<b/>'><!ATTLIST a d CDATA 'dv'>]>");
-    T("<!DOCTYPE a [<!ELEMENT a ANY><!ENTITY e 'v'><!ENTITY f '&#60;&#38;'><!NOTATION n SYSTEM 'n'><!ENTITY u SYSTEM 'u' NDATA n><!-- c --><?p q?>]>");
+    T(DTD_TOKEN2);
     T("&e;"); T("<a>&e;</a>"); T("<a x='&e;'/>"); T("<a d='k'>&e;x&e;</a>");
 }
 static std::string doc_of(uint64_t idx) { std::string d; for (int t : word_at(idx, TOK.size(), g_k)) d += TOK[t]; return d; }
